@@ -95,7 +95,7 @@ Proof. vm_compute. split; reflexivity. Qed.
 (* ------------------------------------------------------------------------------------------------------
    Added in build session 4 (statements re-stated from the proof files by harness tooling; each is closed by
    exact). *)
-From SplipyModel Require Import Transfer.ParamObj Transfer.ParamOps Transfer.ParamOps2 Spec.Deriv Model.Loft Model.InterpMore Proofs.ObjEval Proofs.LoftProofs Proofs.InterpMoreProofs Transfer.ParamLoft.
+From SplipyModel Require Import Transfer.ParamObj Transfer.ParamOps Transfer.ParamOps2 Spec.Deriv Model.Loft Model.InterpMore Proofs.ObjEval Proofs.LoftProofs Proofs.InterpMoreProofs Transfer.ParamLoft Model.Rebuild Proofs.RebuildProofs.
 Open Scope R_scope.
 Theorem C14_executed_is_proved_interpolate :
   forall (tol : Q) (b : basis Q) (ts : list Q) (x : list (list Q)),
@@ -564,4 +564,119 @@ Theorem C14_cubic_periodic_transfer :
          resmap objQ2R (cubic_periodic tol t x) = cubic_periodic (Q2R tol) (map Q2R t) (map (map Q2R) x).
 Proof. exact @cubic_periodic_transfer. Qed.
 Print Assumptions C14_cubic_periodic_transfer.
+
+Theorem C14_rebuild_knots_list :
+  forall (p n : nat) (t0 t1 : R),
+         (1 <= p <= n)%nat ->
+         b_knots (rebuild_basis p n t0 t1) =
+         map (fun i : nat => t0 + (t1 - t0) * (INR (uidx p n i) / INR (n - p + 1))) (seq 0 (n + p)).
+Proof. exact @rebuild_knots_list. Qed.
+Print Assumptions C14_rebuild_knots_list.
+
+Theorem C14_rebuild_basis_domain :
+  forall (p n : nat) (t0 t1 : R),
+         (1 <= p <= n)%nat ->
+         t0 < t1 ->
+         let b := rebuild_basis p n t0 t1 in
+         b_order b = p /\
+         b_per1 b = 0%nat /\
+         length (b_knots b) = (n + p)%nat /\
+         b_nfun b = n /\
+         sorted (kn (b_knots b)) /\
+         b_start b = t0 /\
+         b_end b = t1 /\
+         (forall i : nat, (i < n + p)%nat -> kn (b_knots b) i = t0 <-> (i < p)%nat) /\
+         (forall i : nat, (i < n + p)%nat -> kn (b_knots b) i = t1 <-> (n <= i)%nat) /\
+         (forall j : nat,
+          (1 <= j <= n - p)%nat -> kn (b_knots b) (p - 1 + j) = t0 + (t1 - t0) * (INR j / INR (n - p + 1))).
+Proof. exact @rebuild_basis_domain. Qed.
+Print Assumptions C14_rebuild_basis_domain.
+
+Theorem C14_rebuild_start :
+  forall (p n : nat) (t0 t1 : R), (1 <= p <= n)%nat -> b_start (rebuild_basis p n t0 t1) = t0.
+Proof. exact @rebuild_start. Qed.
+Print Assumptions C14_rebuild_start.
+
+Theorem C14_rebuild_end :
+  forall (p n : nat) (t0 t1 : R), (1 <= p <= n)%nat -> b_end (rebuild_basis p n t0 t1) = t1.
+Proof. exact @rebuild_end. Qed.
+Print Assumptions C14_rebuild_end.
+
+Theorem C14_rebuild_knots_in_domain :
+  forall (p n : nat) (t0 t1 : R) (i : nat),
+         (1 <= p <= n)%nat -> t0 <= t1 -> (i < n + p)%nat -> t0 <= kn (b_knots (rebuild_basis p n t0 t1)) i <= t1.
+Proof. exact @rebuild_knots_in_domain. Qed.
+Print Assumptions C14_rebuild_knots_in_domain.
+
+Theorem C14_rebuild_shape :
+  forall (tol : R) (o : obj R) (p n : nat) (r : obj R),
+         curve_rebuild tol o p n = Ok r ->
+         0 < tol ->
+         wf_obj_R tol o ->
+         o_pardim o = 1%nat ->
+         (2 <= p <= n)%nat /\
+         o_bases r = [rebuild_basis p n (b_start (hd dflt_bas (o_bases o))) (b_end (hd dflt_bas (o_bases o)))] /\
+         o_rat r = false /\
+         o_dim r = o_dim o /\
+         mat n (o_dim o) (o_cps r) /\
+         b_order (rebuild_basis p n (b_start (hd dflt_bas (o_bases o))) (b_end (hd dflt_bas (o_bases o)))) = p /\
+         b_per1 (rebuild_basis p n (b_start (hd dflt_bas (o_bases o))) (b_end (hd dflt_bas (o_bases o)))) = 0%nat /\
+         b_nfun (rebuild_basis p n (b_start (hd dflt_bas (o_bases o))) (b_end (hd dflt_bas (o_bases o)))) = n /\
+         b_start (rebuild_basis p n (b_start (hd dflt_bas (o_bases o))) (b_end (hd dflt_bas (o_bases o)))) =
+         b_start (hd dflt_bas (o_bases o)) /\
+         b_end (rebuild_basis p n (b_start (hd dflt_bas (o_bases o))) (b_end (hd dflt_bas (o_bases o)))) =
+         b_end (hd dflt_bas (o_bases o)) /\
+         sorted
+           (kn (b_knots (rebuild_basis p n (b_start (hd dflt_bas (o_bases o))) (b_end (hd dflt_bas (o_bases o)))))).
+Proof. exact @rebuild_shape. Qed.
+Print Assumptions C14_rebuild_shape.
+
+Theorem C14_rebuild_interpolates :
+  forall (tol : R) (o : obj R) (p n : nat) (r : obj R),
+         curve_rebuild tol o p n = Ok r ->
+         0 < tol ->
+         wf_obj_R tol o ->
+         o_pardim o = 1%nat ->
+         forall i : nat,
+         (i < n)%nat ->
+         exists q : list R,
+           obj_eval tol o
+             [nth i
+                (greville_all (rebuild_basis p n (b_start (hd dflt_bas (o_bases o))) (b_end (hd dflt_bas (o_bases o)))))
+                0] = Ok q /\
+           length q = o_dim o /\
+           (forall v : list R,
+            obj_eval tol r
+              [nth i
+                 (greville_all
+                    (rebuild_basis p n (b_start (hd dflt_bas (o_bases o))) (b_end (hd dflt_bas (o_bases o))))) 0] =
+            Ok v -> forall c : nat, (c < o_dim o)%nat -> coord c v = coord c q).
+Proof. exact @rebuild_interpolates. Qed.
+Print Assumptions C14_rebuild_interpolates.
+
+Theorem C14_rebuild_reproduces :
+  forall (tol : R) (o : obj R) (p n : nat) (r : obj R) (c0 : list (list R)),
+         curve_rebuild tol o p n = Ok r ->
+         0 < tol ->
+         wf_obj_R tol o ->
+         o_pardim o = 1%nat ->
+         let b0 := hd dflt_bas (o_bases o) in
+         let b := rebuild_basis p n (b_start b0) (b_end b0) in
+         mat n (o_dim o) c0 ->
+         (forall i : nat,
+          (i < n)%nat ->
+          exists q : list R,
+            obj_eval tol o [nth i (greville_all b) 0] = Ok q /\
+            obj_eval tol {| o_bases := [b]; o_cps := c0; o_dim := o_dim o; o_rat := false |} [nth i (greville_all b) 0] =
+            Ok q) -> o_cps r = c0.
+Proof. exact @rebuild_reproduces. Qed.
+Print Assumptions C14_rebuild_reproduces.
+
+Theorem C14_rebuild_poly_example :
+  rbq_view (curve_rebuild rbq_tol rbq_poly 3 5) =
+         Some
+           ([(-2)%Q; (-2)%Q; (-2)%Q; (- (5 # 3))%Q; (- (4 # 3))%Q; (-1)%Q; (-1)%Q; (-1)%Q],
+            [[0%Q; 0%Q]; [1 # 3; 0%Q]; [7 # 9; 2 # 9]; [1%Q; 2 # 3]; [1%Q; 1%Q]], 2%nat, false).
+Proof. exact @rebuild_poly_example. Qed.
+Print Assumptions C14_rebuild_poly_example.
 
